@@ -865,7 +865,9 @@ Verdict check_g1(const J& r) {
     if (ref::ell::RF(x, y, z, rf) && ref::ell::RD(x, y, z, rd) && ref::ell::RD(a2, b2, c2, rd2) && ref::ell::RG(x, y, z, rg)) {
       L canc = ((L)z * rf + fabsl(((L)x - z) * ((L)y - z)) * rd / 3 + sqrtl((L)x * (L)y / (L)z)) / (2 * rg);
       L cancp = ((L)c2 * rf + fabsl(((L)a2 - c2) * ((L)b2 - c2)) * rd2 / 3 + sqrtl((L)a2 * (L)b2 / (L)c2)) / (2 * rg);
-      if (std::max(canc, cancp) > 4) { kid = "C15-RG-cancellation"; kwhy = "RG(x,y,z) loses accuracy when z is not the middle argument (terms of Carlson's formula cancel)"; v.tag("RG-cancellation-regime"); }
+      // (repaired in /repo: "fix: EllipticFunction::RG(x, y, z) lost accuracy unless z was the middle argument"; the regime is
+      // still tagged so that its population is visible, but nothing is excused here any more)
+      if (std::max(canc, cancp) > 4) v.tag("RG-cancellation-regime");
     }
   }
   if (!kid && !moderate && (fn == 2 || fn == 3 || fn == 5 || fn == 6)) {
@@ -1038,7 +1040,24 @@ bool rj_cancels(double cn2, double dn2, double pp) {
   return 1 + pr < 0.25L;
 }
 
+Verdict check_g2_inner(const J& r);
+// Known finding C15-G-alpha2-k2-rounded: G (complete and incomplete) is K + (alpha2 - k2) RJ/3 with alpha2 - k2 formed from the
+// stored (rounded) k2 and alpha2.  With the four-argument constructor ("to enable accuracy to be maintained when k is very
+// close to unity") the difference is really k'^2 - alpha'^2; when k2 and alpha2 round to the same number (or nearly) the
+// term is lost: EllipticFunction(1, 1, 1e-40, 0).G(1.5707963267948959) is off by 9e-11 of its scale.
+// Region, decided from the parameters alone: kind G, four-argument constructor, and the two differences disagree by > 0.1 %.
 Verdict check_g2(const J& r) {
+  Verdict v = check_g2_inner(r);
+  if (v.failed() && kn("C15-G-alpha2-k2-rounded")) {
+    ParRec p; ref::ell::Par rp;
+    if (get_par(r, p, rp) && r.geti("kind") == 4 && p.four &&
+        fabsl(((L)p.a2 - (L)p.k2) - ((L)p.kp2 - (L)p.ap2)) > 1e-3L * fabsl((L)p.kp2 - (L)p.ap2)) {
+      Verdict k; k.cls = v.cls; k.known("C15-G-alpha2-k2-rounded", "G with alpha2 - k2 formed from rounded parameters: " + v.msg); return k;
+    }
+  }
+  return v;
+}
+Verdict check_g2_inner(const J& r) {
   Verdict v; ParRec p; ref::ell::Par rp;
   if (!get_par(r, p, rp)) { v.skip("parameters outside the documented domain / generated range"); return v; }
   double phi = r.getd("phi"), ang = r.getd("ang"); long long card = r.geti("card"), kind = r.geti("kind");
@@ -1119,7 +1138,9 @@ Verdict check_g2(const J& r) {
         if (K >= 3 && back) sc += 2 * C0fin;
         if (K >= 3 && cn == 0) sc += C0fin;
         bool reg = K >= 3 && p.a2 != 0 && ((cn != 0 && rj_cancels(cn * cn, dn * dn, cn * cn + p.ap2 * sn * sn)) || (rjc && (back || cn == 0)));
-        cmp(libsc(sn, cn, dn), X, sc * legmul, NLEG[K], std::string(KN[K]) + "(sn,cn,dn) [abs/scale]", reg);
+        // div: the complete integral is infinite (alpha2 = 1 or k2 = 1) and the value here is dominated by 1/cn; seen 4.2x the
+        // ordinary law at cn = 1.8e-16 (k2 = alpha2 = 1, k'^2 = 1e-40), so 4x that
+        cmp(libsc(sn, cn, dn), X, sc * legmul * (div ? 16 : 1), NLEG[K], std::string(KN[K]) + "(sn,cn,dn) [abs/scale]", reg);
         L dl;
         if (!div && sn != 0 && ref::ell::delta(rp, K, sn, cn, dl)) {
           // delta = X pi/(2 Xc) - phi: both terms up to pi/2; the cancellation scale of Pi, G, H enters through X/Xc
